@@ -272,6 +272,24 @@ func (e *Exec) ident(v *ast.Ident, c *Ctx) Term {
 			return e.get(c.st, k, ty)
 		}
 	}
+	if c.fr.hosted && c.spec {
+		for f := c.fr.parent; f != nil; f = f.parent {
+			if k, ok := f.names[v.Name]; ok {
+				if t, ok2 := e.escapedValue(c.st, k); ok2 {
+					return t
+				}
+				if t, ok2 := c.st.vars[k]; ok2 {
+					return t
+				}
+				if ty, ok2 := f.ntypes[v.Name]; ok2 {
+					return e.get(c.st, k, ty)
+				}
+			}
+			if f.top {
+				break
+			}
+		}
+	}
 	if g, ok := e.prog.ghostVars[v.Name]; ok {
 		return e.get(c.st, "GV!"+g.Name, g.Type)
 	}
